@@ -391,6 +391,8 @@ def check(ctx):
     ctx.inst('R8', lcb, 'enqueue-each-sample', len(puts) == 1 and norm(puts[0].args[0]) == '(%s)' % ', '.join(lcb.params[1:4]) and len(effective(lcb.node.body)) == 1 and uncond and
              not puts[0].keywords and len(puts[0].args) == 1, 'each decoded sample is enqueued once, as received, unconditionally (no state test: samples arrive while connect() is still running)')
     from .c07 import caller_rules
+    from .c08 import packet_size_rules
+    packet_size_rules(ctx, 'R3')      # 'it fits' is asked of the packet as it is now: the records are appended to pk.data in place (shared with C08.R4)
     caller_rules(ctx, 'R10')      # LogConfig.data_received_cb is a Caller: every registered consumer gets each sample once (shared with C07.R2)
     nx = S.method('__next__')
     gets = [c for c in walk_own(nx.node) if method_call(c, 'get') and norm(c.func.value) == 'self._queue']
